@@ -13,6 +13,7 @@ JUDGE specs/keepstore/KeepstoreContractTrace.tla (KeepstoreContract)
 import json
 import os
 import random
+import re
 import sys
 
 sys.path.insert(0, os.path.join(os.path.dirname(os.path.abspath(__file__)), "..", "lib"))
@@ -62,21 +63,25 @@ def run(ctx):
     pkg = "services/keepstore"
     rnd = random.Random(ctx.seed)
     # GEN: design-level check, exhaustive over the whole configuration space
-    ctx.tlc(sd, "KeepHandlers", "MC_C01_KeepHandlers.cfg", timeout=1500,
+    mc = ctx.tlc(sd, "KeepHandlers", "MC_C01_KeepHandlers.cfg", timeout=1500,
             label="exhaustive: handler loops refine the contract; design invariants; termination",
             extra=["-coverage", "1"] if ctx.thorough else [])
+    if ctx.thorough:   # -coverage 1: actions of the model that were never taken would make the check vacuous
+        ctx.extra["vacuous_actions"] = re.findall(r"^<(\w+) line [^>]*>: 0:0", mc.out, re.M)
     gen, r = ctx.gen(sd, "KeepHandlers", "Gen_C01_KeepHandlers.cfg", timeout=1500, label="scenario emission")
     if len(gen) < 1000:
         raise vlib.InfraError("Gen emitted only %d scenarios" % len(gen))
     gen.sort(key=lambda s: json.dumps(s, sort_keys=True))
     ctx.extra["scenarios_emitted"] = len(gen)
     if not ctx.thorough:
-        # quick tier: every configuration of 1-2 volumes, every 3-volume read configuration, and a
-        # seeded sample of the 3-volume PUT configurations (the thorough tier replays all of them)
-        keep = [g for g in gen if g["n"] <= 2 or g["kind"] in ("get", "head")]
-        rest = [g for g in gen if not (g["n"] <= 2 or g["kind"] in ("get", "head"))]
-        rnd.shuffle(rest)
-        gen = keep + rest[:4000]
+        # quick tier: every configuration of 1-2 volumes and a seeded sample of the 3-volume read and
+        # PUT configurations (the thorough tier replays all of them)
+        keep = [g for g in gen if g["n"] <= 2]
+        reads = [g for g in gen if g["n"] > 2 and g["kind"] in ("get", "head")]
+        puts = [g for g in gen if g["n"] > 2 and g["kind"] not in ("get", "head")]
+        rnd.shuffle(reads)
+        rnd.shuffle(puts)
+        gen = keep + reads[:3000] + puts[:3000]
     ctx.extra["scenarios_replayed"] = len(gen)
     scns = []
     conc = 2 if ctx.thorough else 1
@@ -176,11 +181,11 @@ def run(ctx):
         if corrupt:
             nontrivial.add(k)
     ctx.extra["distinct_nontrivial"] = len(nontrivial)
-    ctx.exhaustive = ctx.thorough   # quick samples the 3-volume PUT configurations
+    ctx.exhaustive = ctx.thorough   # quick samples the 3-volume configurations
     ctx.rule = ("scenarios = every configuration enumerated by KeepHandlers.tla (1-3 volumes x read-only/writable/"
                 "full x copy classes {absent,intact,flip,trunc,ext,subst,empty} x round-robin position x "
                 "{get, head, put+get, put+head, bad put+get} x non-empty/empty hash; the quick tier replays all 1-2 "
-                "volume and all 3-volume read configurations and a seeded sample of 4000 3-volume PUT "
+                "volume configurations and seeded samples of 3000 3-volume read and 3000 3-volume PUT "
                 "configurations, the thorough tier all of them), each replayed on real "
                 "Directory volumes under %d seeded concretisation(s), plus seeded random request sequences "
                 "(1-4 volumes, harness corruptions between requests); traces identical in every field the "
